@@ -7,5 +7,116 @@
 namespace vf { namespace c10 {
 void register_unit_families() { register_group_a(); }
 uint64_t random_cases(bool thorough) { return thorough ? 40000 : 1000; }
-std::vector<Extra>& extras() { static std::vector<Extra> x; return x; }
+// ---------------------------------------------------------------- HLL images synthesised from the documented layout (see vf/c10_decode.hpp)
+struct SynthHll { std::string name, img; uint8_t lg_k; int tgt; bool empty; std::set<uint32_t> coupons; std::vector<uint8_t> regs; double hip; };
+
+static std::vector<SynthHll> synth_hll_images() {
+  std::vector<SynthHll> out;
+  Rng r(0x411C10);
+  for (int tgt = 0; tgt < 3; ++tgt) {
+    const uint8_t lg_k = uint8_t(8 + tgt * 2);
+    const uint32_t k = 1u << lg_k;
+    auto coupon = [&]() { return uint32_t((1 + r.below(40)) << 26) | uint32_t(r.below(1u << 26)); };
+    // LIST: empty flag forms (8-byte compact, updatable with 8 zero slots) and with coupons
+    { Wr w; w.u8(2).u8(1).u8(7).u8(lg_k).u8(3).u8(4 | 8).u8(0).u8(uint8_t(tgt << 2)); out.push_back({"list-empty-compact", w.b, lg_k, tgt, true, {}, {}, 0}); }
+    { Wr w; w.u8(2).u8(1).u8(7).u8(lg_k).u8(3).u8(4).u8(0).u8(uint8_t(tgt << 2)).zeros(32); out.push_back({"list-empty-updatable", w.b, lg_k, tgt, true, {}, {}, 0}); }
+    { std::set<uint32_t> cs; while (cs.size() < 5) cs.insert(coupon());
+      Wr w; w.u8(2).u8(1).u8(7).u8(lg_k).u8(3).u8(8).u8(5).u8(uint8_t(tgt << 2)); for (uint32_t c : cs) w.u32(c);
+      out.push_back({"list-compact", w.b, lg_k, tgt, false, cs, {}, 0});
+      Wr u; u.u8(2).u8(1).u8(7).u8(lg_k).u8(3).u8(0).u8(5).u8(uint8_t(tgt << 2)); for (uint32_t c : cs) u.u32(c); u.zeros(12);
+      out.push_back({"list-updatable", u.b, lg_k, tgt, false, cs, {}, 0}); }
+    // SET (compact), with the lgArr byte filled in and left 0 (the reader then derives the array size from the count)
+    for (int lgarr0 = 0; lgarr0 < 2; ++lgarr0) {
+      std::set<uint32_t> cs; const uint32_t cnt = 9 + uint32_t(r.below(12)); while (cs.size() < cnt) cs.insert(coupon());
+      Wr w; w.u8(3).u8(1).u8(7).u8(lg_k).u8(lgarr0 ? 0 : 5).u8(8).u8(0).u8(uint8_t((tgt << 2) | 1)).u32(cnt); for (uint32_t c : cs) w.u32(c);
+      out.push_back({lgarr0 ? "set-compact-lgarr-byte-unused" : "set-compact", w.b, lg_k, tgt, false, cs, {}, 0});
+    }
+    // HLL mode
+    for (int compact = 0; compact < 2; ++compact) {
+      const uint8_t cur_min = tgt == 0 ? 2 : 0;
+      std::vector<uint8_t> regs(k);
+      for (auto& v : regs) v = uint8_t(cur_min + (r.chance(0.1) ? 0 : r.below(12)));
+      if (tgt == 0) for (int i = 0; i < 5; ++i) regs[r.below(k)] = uint8_t(cur_min + 15 + r.below(20));   // exceptions
+      else for (int i = 0; i < 5; ++i) regs[r.below(k)] = uint8_t(33 + r.below(20));
+      uint32_t at_min = 0; double kxq0 = 0, kxq1 = 0;
+      for (uint8_t v : regs) { if (v == cur_min) ++at_min; if (v < 32) kxq0 += std::ldexp(1.0, -int(v)); else kxq1 += std::ldexp(1.0, -int(v)); }
+      std::vector<uint32_t> aux;
+      if (tgt == 0) for (uint32_t i = 0; i < k; ++i) if (regs[i] - cur_min >= 15) aux.push_back((uint32_t(regs[i]) << 26) | i);
+      const double hip = 1000.0 * (1 + tgt) + 0.25;
+      const uint8_t lg_aux = hll_lg_aux_arr_ints(lg_k);
+      Wr w; w.u8(10).u8(1).u8(7).u8(lg_k).u8(tgt == 0 && !compact ? lg_aux : 0).u8(compact ? 8 : 0).u8(cur_min).u8(uint8_t((tgt << 2) | 2));
+      w.f64(hip).f64(kxq0).f64(kxq1).u32(at_min).u32(uint32_t(aux.size()));
+      if (tgt == 2) for (uint8_t v : regs) w.u8(v);
+      else if (tgt == 1) { std::vector<uint8_t> b((size_t(k) * 3) / 4 + 1, 0); for (uint32_t i = 0; i < k; ++i) { const size_t bit = size_t(i) * 6; const unsigned x = unsigned(regs[i]) << (bit & 7); b[bit >> 3] |= uint8_t(x); b[(bit >> 3) + 1] |= uint8_t(x >> 8); } for (uint8_t v : b) w.u8(v); }
+      else {
+        for (uint32_t i = 0; i < k; i += 2) { auto nib = [&](uint32_t j) { const int d = regs[j] - cur_min; return uint8_t(d >= 15 ? 15 : d); }; w.u8(uint8_t(nib(i) | (nib(i + 1) << 4))); }
+        if (compact) for (uint32_t a : aux) w.u32(a);
+        else {   // open-addressing table of 2^lgAux ints: slot = (slotNo & mask), linear probing with an odd stride is the library's
+                 // business; an image only needs every pair somewhere in the table — which the reader re-inserts
+          std::vector<uint32_t> table(1u << lg_aux, 0); size_t pos = 0; for (uint32_t a : aux) { table[pos % table.size()] = a; pos += 3; } for (uint32_t a : table) w.u32(a);
+        }
+      }
+      out.push_back({std::string("hll-") + (compact ? "compact" : "updatable") + (tgt == 0 && compact ? "-lgarr-byte-unused" : ""), w.b, lg_k, tgt, false, {}, regs, hip});
+    }
+  }
+  return out;
+}
+
+static void synth_hll_case(const SynthHll& H) {
+  const std::string tn = H.tgt == 0 ? "hll4" : H.tgt == 1 ? "hll6" : "hll8";
+  for (int stream = 0; stream < 2; ++stream) {
+    const std::string P = stream ? "stream" : "bytes";
+    const std::string key = "legacy|hll|synthesised-" + H.name + "|" + tn + "|" + P + "|";
+    try {
+      const hll_sketch s = read_hll(H.img, stream != 0);
+      VF_CHECK(s.get_lg_config_k() == H.lg_k && int(s.get_target_type()) == H.tgt, key + "lg-k-or-target-type", "");
+      VF_CHECK(s.is_empty() == H.empty, key + "is-empty", "");
+      const hll_sketch s8(s, HLL_8);
+      const auto img8 = s8.serialize_updatable();
+      const Hll d = decode_hll(img8.data(), img8.size(), false);
+      if (H.regs.empty()) {
+        VF_CHECK(std::set<uint32_t>(d.coupons.begin(), d.coupons.end()) == H.coupons && d.mode != 2, key + "coupons", "got " + std::to_string(d.coupons.size()));
+        if (!H.empty) VF_CHECK(s.get_estimate() >= double(H.coupons.size()) && s.get_estimate() < H.coupons.size() * 1.01 + 1, key + "estimate", str(s.get_estimate()));
+        else VF_CHECK(s.get_estimate() == 0.0, key + "estimate", "");
+      } else {
+        VF_CHECK(d.mode == 2 && d.regs == H.regs, key + "registers", "");
+        VF_CHECK(s.get_estimate() == H.hip, key + "hip-estimate", str(s.get_estimate()));
+      }
+    } catch (const std::exception& e) { checked(); fail(key + "deserialize-threw", e.what()); }
+    count("legacy_hll_" + P);
+  }
+  count("legacy_hll_" + H.name);
+  sig(img_hash(H.img));
+}
+
+// ---------------------------------------------------------------- CPC: empty image with and without the HIP flag
+// byte0 preInts=2 1 serVer=1 2 family=16 3 lgK 4 firstInterestingColumn=0 5 flags (bit1 compressed [, bit2 has HIP]) 6-7 seedHash
+static void synth_cpc_empty(int rep) {
+  const uint8_t lg_k = uint8_t(4 + rep * 3); const uint64_t seed = rep & 1 ? 777 : DEFAULT_SEED; const bool hip = rep & 2;
+  Wr w; w.u8(2).u8(1).u8(16).u8(lg_k).u8(0).u8(hip ? 0x06 : 0x02).u16(ref_seed_hash(seed));
+  for (int stream = 0; stream < 2; ++stream) {
+    const std::string P = stream ? "stream" : "bytes";
+    const std::string key = std::string("legacy|cpc|synthesised-empty-") + (hip ? "with-hip-flag" : "without-hip-flag") + "|" + P + "|";
+    try {
+      cpc_sketch s = read_cpc(w.b, stream != 0, seed);
+      VF_CHECK(s.is_empty() && s.get_lg_k() == lg_k && s.get_num_coupons() == 0 && s.get_estimate() == 0.0, key + "content", "");
+      s.update(uint64_t(1)); s.update(uint64_t(2));
+      VF_CHECK(s.get_num_coupons() == 2 && s.get_estimate() > 1.5 && s.get_estimate() < 2.5, key + "usable-after-read", str(s.get_estimate()));
+    } catch (const std::exception& e) { checked(); fail(key + "deserialize-threw", e.what()); }
+    count("legacy_cpc_" + P);
+  }
+  sig(img_hash(w.b));
+}
+
+std::vector<Extra>& extras() {
+  static std::vector<Extra> x;
+  static bool init = false;
+  if (!init) {
+    init = true;
+    static const std::vector<SynthHll> hs = synth_hll_images();
+    for (size_t i = 0; i < hs.size(); ++i) x.push_back(Extra{"synth hll " + hs[i].name, [i]() { synth_hll_case(hs[i]); }});
+    for (int rep = 0; rep < 4; ++rep) x.push_back(Extra{"synth cpc empty", [rep]() { synth_cpc_empty(rep); }});
+  }
+  return x;
+}
 } }
